@@ -1182,3 +1182,37 @@ def _init_const(func, args, kwargs):
     q = np.empty((), dtype=object); q[()] = conv_for(a.dtype)(lift(v))
     a._p[...] = np.broadcast_to(q, a._p.shape)
     return a
+
+
+LU_OF = {}
+
+
+@handles("lu", "linalg_lu_factor", "_lu_with_info")
+def _lu(func, args, kwargs):
+    """assumed contract of torch.lu: an opaque factorisation handle; |prod diag(LU)| = |det A|; lu_solve solves A X = B"""
+    a = args[0]
+    p = apply1(toreal, P(a))
+    n = p.shape[0]
+    ctx = C()
+    lu = np.empty((n, n), dtype=object)
+    for idx in np.ndindex(n, n):
+        lu[idx] = fresh("lu", R)
+    d = det_cofactor(p)
+    prod = lu[0, 0]
+    for i in range(1, n): prod = prod * lu[i, i]
+    ctx.axiom([lu[i, i] for i in range(n)], z3.If(prod >= 0, prod, -prod) == z3.If(d >= 0, d, -d))
+    s = Sym.make(lu, a.dtype)
+    LU_OF[id(s._p)] = (s, p)
+    piv = torch.arange(1, n + 1, dtype=torch.int32)
+    return s, piv
+
+
+@handles("lu_solve", "linalg_lu_solve")
+def _lu_solve(func, args, kwargs):
+    b, lu, piv = args[0], args[1], args[2]
+    ent = LU_OF.get(id(P(lu)))
+    if ent is None: raise Unsupported("lu_solve on an unknown factorisation")
+    same_dtype(b, lu)
+    A = ent[1]
+    inv = P(_inverse(torch.inverse, (Sym.make(A, lu.dtype),), {}))
+    return like(b, mat_mul(inv, apply1(toreal, P(b))))
